@@ -3,7 +3,8 @@ from props_common import *
 PROP = dict(
     title="Sparse Merkle root depends only on the final key-value map",
     family="smt", harness="smt", run_vo="Run/Smt.vo",
-    theorems=["C12_fun", "C12_extensional", "C12_order_independent", "C12_fun_lookup", "C12_refine"],
+    theorems=["C12_fun", "C12_extensional", "C12_order_independent", "C12_fun_lookup", "C12_refine",
+              "C12_msb_get_bit", "C12_msb_common_prefix", "C12_msb_roundtrip"],
     open_statements=["C12_from_set_full_statement: from_set / root_from_set / nodes_from_set of the L1 model return the spec root of the map the set denotes (not proved; covered by the correspondence run — roots, storage size, exact node list — and by the harness reference-root oracle)"],
     translators=[],
     quick_shards=8,
